@@ -26,7 +26,12 @@ META = dict(
           "populations x partition sum = Boltzmann factor, partition sum = sum of the factors and > 0, real and "
           "non-negative; T = 0 puts everything on the lowest eigenstate); its partition sum is >= 1 - no 0/0 - under the "
           "stated precondition that the lowest eigenenergy is zero and the others non-negative (that function does not "
-          "shift the energies itself)."),
+          "shift the energies itself). The basis in which a requested thermal excited state is defined is under a ghost "
+          "protocol (stack of current bases, recorded at every read of the Hamiltonian's data and every DensityMatrix "
+          "construction): for weak coupling the exciton populations are proved to be wrapped while eigenbasis_of(H) is "
+          "current and handed over in the caller's basis, for requests from inside and outside a caller's context; for "
+          "strong coupling the site energies are read and the state wrapped in the site basis when requested outside a "
+          "context - inside a caller's context they are not (open known finding)."),
     note=("real arithmetic for floats (the numerical-safety clause is what carries the low-temperature claim); exp is "
           "uninterpreted with exp(0) = 1, positivity, exp(x) <= 1 for x <= 0 and exp(x+y) = exp(x) exp(y); "
           "get_DensityMatrix (weak-coupling dispatch, impulsive excitation) and the inside/outside-basis-context claim are "
@@ -96,31 +101,39 @@ def contracts(reg):
     # exactly those energies.
     def dm_hook(ex, cinfo, args, kwargs, line):
         if cinfo.name in ("DensityMatrix", "ReducedDensityMatrix"):
+            st = ex.__dict__.setdefault("basis_stack", ["site"])
+            ex.__dict__.setdefault("dm_created_in", []).append(st[-1])
             return (Obj(cinfo.name + "(stub)", {"data": kwargs.get("data", args[0] if args else None)}),)
         if cinfo.name == "eigenbasis_of":
             # stand-in context: inside it the operator's `data` is its eigen-representation (the stub Hamiltonian of
-            # the set-up carries exactly that); entering / leaving and transforming back are the subject of C04
+            # the set-up carries exactly that); entering / leaving and transforming back are the subject of C04.
+            # Ghost: a stack of the bases that are current (C14 claim "same state inside and outside a context")
             ex.used_models.add("assume:eigenbasis_of context presents the Hamiltonian in its eigenbasis (C04)")
-            return (Obj("eigenbasis_of(stand-in)", {"__enter__": Builtin("ctx.__enter__", lambda ex_, a, k, l: None),
-                                                    "__exit__": Builtin("ctx.__exit__", lambda ex_, a, k, l: None)}),)
+            st = ex.__dict__.setdefault("basis_stack", ["site"])
+            name = "eigenbasis_of(%s)" % getattr(args[0], "label", "?")
+            return (Obj("eigenbasis_of(stand-in)", {"__enter__": Builtin("ctx.__enter__", lambda ex_, a, k, l: st.append(name)),
+                                                    "__exit__": Builtin("ctx.__exit__", lambda ex_, a, k, l: st.pop())}),)
         return None
     reg.models.hooks_instantiate.append(dm_hook)
 
-    def setup_dm(S, supplied):
-        n = S.int("n")
-        start = S.int("start")
+    def setup_dm(S, supplied, concrete=None):
+        n = S.int("n") if concrete is None else concrete[0]
+        start = S.int("start") if concrete is None else concrete[1]
         reorg = S.array("reorg", (n,), "real")
         sbi = S.obj("SystemBathInteraction(stub)", label="sbi",
                     get_reorganization_energy=Builtin("sbi.get_reorganization_energy", lambda ex, a, k, l: reorg.get([a[0]])),
                     has_temperature=Builtin("sbi.has_temperature", lambda ex, a, k, l: True),
                     get_temperature=Builtin("sbi.get_temperature", lambda ex, a, k, l: S.leaves["temp"]))
-        own = S.obj("Hamiltonian(stub)", label="ownH", dim=n, data=S.array("Hown", (n, n), "cx"))
+        own = S.obj("Hamiltonian(stub)", label="ownH", dim=n, data=S.array("Hown", (n, n), "cx" if concrete is None else "real"))
         given = S.obj("Hamiltonian(stub)", label="givenH", dim=n, data=S.array("Hgiven", (n, n), "cx"))
         nb = V.lam_array((2,), "int", lambda idx: z3.If(V.z3int(idx[0]) == 0, start, V.arith("-", n, start)))
         me = S.obj(AB + "AggregateBase", label="self", _built=True, sbi=sbi, Nb=nb, rho0=None,
                    get_Hamiltonian=Builtin("self.get_Hamiltonian", lambda ex, a, k, l: own))
         temp = S.real("temp")
-        S.ex.assume(z3.And(n >= 2, start >= 1, start < n, temp > 0))
+        if concrete is None:
+            S.ex.assume(z3.And(n >= 2, start >= 1, start < n, temp > 0))
+        else:
+            S.ex.assume(temp > 0)
         return dict(self=me, condition_type="thermal_excited_state", relaxation_theory_limit="strong_coupling",
                     temperature=temp, relaxation_hamiltonian=(given if supplied else None), DD=None,
                     n=n, start=start, reorg=reorg, Hown=own.fields["data"], Hgiven=given.fields["data"], temp=temp)
@@ -150,6 +163,47 @@ def contracts(reg):
                                    "forall(i, range(0, n - start), passed_subtract[i] == %s)" % SUB),
                                   ("excited-band-only-at-the-requested-temperature", "passed_start == start and passed_temp == temp"),
                                   ("result-is-that-equilibrium", "result.data is self.rho0")]))
+
+    # ---- the basis in which the state is defined is fixed by the request ---------------------------------------------------------------
+    # weak coupling: the matrix of exciton populations must be given to a DensityMatrix while the exciton basis of the
+    # Hamiltonian is current (the object then carries its basis and is handed over in the caller's); strong coupling: the
+    # site energies must be read and the matrix wrapped while the site basis is current.  Ghost: stack of current bases,
+    # recorded at every DensityMatrix construction and at every read of the Hamiltonian's data.
+    def read_hook(ex, obj, name, line):
+        if name == "data" and isinstance(obj, Obj) and getattr(obj, "label", None) in ("ownH", "givenH") \
+                and getattr(ex, "basis_protocol", False):
+            st = ex.__dict__.setdefault("basis_stack", ["site"])
+            ex.__dict__.setdefault("ham_read_in", []).append(st[-1])
+        return None
+    reg.models.hooks_getattr.insert(0, read_hook)
+
+    def setup_basis(S, limit, inside):
+        d = setup_dm(S, False, concrete=(4, 1))       # ground state + three excitons (the weak-coupling arm builds a list)
+        d["relaxation_theory_limit"] = limit
+        S.ex.basis_stack = ["site"] + (["eigenbasis_of(caller)"] if inside else [])
+        S.ex.dm_created_in = []
+        S.ex.ham_read_in = []
+        S.ex.basis_protocol = True
+        return d
+
+    def ghost_basis(S, env):
+        ghost_dm(S, env)
+        env["dm_created_in"] = list(S.ex.dm_created_in)
+        env["ham_read_in"] = list(S.ex.ham_read_in)
+        env["basis_stack"] = list(S.ex.basis_stack)
+    for inside in (False, True):
+        tag = "inside-a-callers-context" if inside else "outside-any-context"
+        cur = "eigenbasis_of(caller)" if inside else "site"
+        reg.add(Contract(AB + "AggregateBase.get_DensityMatrix#basis-weak-coupling-requested-" + tag,
+                         setup=(lambda S, i=inside: setup_basis(S, "weak_coupling", i)), ghost=ghost_basis, requires=[],
+                         ensures=[("exciton-populations-wrapped-in-the-exciton-basis-of-the-hamiltonian",
+                                   "dm_created_in[0] == 'eigenbasis_of(ownH)'"),
+                                  ("energies-read-in-the-exciton-basis", "ham_read_in == ['eigenbasis_of(ownH)']"),
+                                  ("handed-over-in-the-callers-basis", "dm_created_in[-1] == %r and basis_stack[-1] == %r" % (cur, cur))]))
+        reg.add(Contract(AB + "AggregateBase.get_DensityMatrix#basis-strong-coupling-requested-" + tag,
+                         setup=(lambda S, i=inside: setup_basis(S, "strong_coupling", i)), ghost=ghost_basis, requires=[],
+                         ensures=[("site-energies-read-and-state-wrapped-in-the-site-basis",
+                                   "ham_read_in == ['site'] and dm_created_in == ['site']")]))
 
     # ---- molecular version (OpenSystem.get_thermal_ReducedDensityMatrix) ------------------------------------------------------------------
     def setup_mol(S, zero_T, ground_zero=False):
@@ -202,6 +256,8 @@ def plan(ctx):
                    AB + "AggregateBase._thermal_population#zero-temperature",
                    AB + "AggregateBase.get_DensityMatrix#strong-coupling-supplied-hamiltonian",
                    AB + "AggregateBase.get_DensityMatrix#strong-coupling-own-hamiltonian",
+                   ] + [AB + "AggregateBase.get_DensityMatrix#basis-%s-coupling-requested-%s" % (l_, t_)
+                        for l_ in ("weak", "strong") for t_ in ("outside-any-context", "inside-a-callers-context")] + [
                    OS + "OpenSystem.get_thermal_ReducedDensityMatrix#positive-temperature",
                    OS + "OpenSystem.get_thermal_ReducedDensityMatrix#lowest-energy-zero",
                    OS + "OpenSystem.get_thermal_ReducedDensityMatrix#zero-temperature"]
@@ -214,8 +270,9 @@ def plan(ctx):
     p.trusted = ["scipy.constants.c = 299792458 (exact SI value), 3.14159265 < pi < 3.14159266", "exp(0) = 1, exp(x) > 0, exp(x) <= 1 for x <= 0 (facts about the real exponential)",
                  "floating point treated as real arithmetic: 'cannot underflow to 0/0' is expressed as: one Boltzmann factor "
                  "is exp(0) = 1 and all others are exp of a non-positive number"]
-    p.not_decided = ["get_DensityMatrix: dispatch on condition type and coupling limit, the basis in which the state is defined, "
-                     "same physical state inside / outside a basis context", "impulsive excitation (Hermitian, PSD)",
+    p.not_decided = ["get_DensityMatrix: dispatch on condition type; that the DensityMatrix class carries its basis through "
+                     "context exit (C04)", "impulsive excitation (Hermitian, PSD; it also differs inside / outside a context, but "
+                     "its basis is not fixed by the request)",
                      "that a Molecule's Hamiltonian has its lowest eigenenergy at zero (precondition of the no-underflow clause of "
                      "the molecular version); systems with vibrational modes in aggregates (index bookkeeping of bands)"]
     return p
